@@ -4,6 +4,7 @@ import (
 	"fmt"
 	"math/big"
 	"math/rand"
+	"reflect"
 	"sort"
 
 	"github.com/MinterTeam/minter-go-node/coreV2/transaction"
@@ -29,6 +30,7 @@ type GenCfg struct {
 	TightSupply bool `json:"tight_supply,omitempty"` // bancor coins a few coins below their max supply, with a base-coin pool that prices them dearly
 	EqualPools bool  `json:"equal_pools,omitempty"` // some pools start with reserve0 == reserve1 (orders exactly at the pool price)
 	PriceCoin  bool  `json:"price_coin"` // commission table denominated in a custom coin
+	PriceSwarm bool  `json:"price_swarm,omitempty"` // some entries of the commission table are zero, odd, much larger or much smaller
 	GenesisHr  int   `json:"genesis_hr"`
 	InitialH   int64 `json:"initial_h"` // first block height
 	LockedAcct int   `json:"locked_acct"`
@@ -407,6 +409,35 @@ func BuildGenesis(r *rand.Rand, g GenCfg) types.AppState {
 	}
 	if g.PriceCoin && g.USDT {
 		st.Commission.Coin = usdt.c.ID
+	}
+	if g.PriceSwarm {
+		// no check may depend on one price table: a few entries become free, odd, dearer or cheaper
+		pr := rand.New(rand.NewSource(r.Int63()))
+		rv := reflect.ValueOf(&st.Commission).Elem()
+		var idx []int
+		for i := 0; i < rv.NumField(); i++ {
+			if rv.Field(i).Kind() == reflect.String {
+				idx = append(idx, i)
+			}
+		}
+		for j, n := 0, 1+pr.Intn(8); j < n; j++ {
+			f := rv.Field(idx[pr.Intn(len(idx))])
+			v := bi(f.String())
+			if v == nil {
+				continue
+			}
+			switch pr.Intn(4) {
+			case 0:
+				v = new(big.Int)
+			case 1:
+				v = new(big.Int).Mul(v, big.NewInt(int64(2+pr.Intn(9))))
+			case 2:
+				v = new(big.Int).Div(v, big.NewInt([]int64{10, 1000, 1000000}[pr.Intn(3)]))
+			case 3:
+				v = new(big.Int).Add(v, big.NewInt(int64(1+pr.Intn(999))))
+			}
+			f.SetString(v.String())
+		}
 	}
 	return st
 }
